@@ -72,6 +72,9 @@ VANISH = {
     "fiber_stage_param_closure": ["ObjFiber"], "fiber_stage_block_closure": ["ObjFiber"],
     "fiber_closure_after_yield": ["ObjFiber"], "fiber_method_closure": ["ObjFiber"],
     "closure": ["ObjFiber"], "iter_chain": ["ObjFiber"],
+    # "+keep": exactly one per slot of the ring survives (the finished worker kept there) - not the stage fiber that called it
+    "fiber_worker_chain": ["ObjFiber+keep"], "fiber_worker_yielding": ["ObjFiber+keep"], "fiber_finished_kept": ["ObjFiber+keep"],
+    "fiber_finished_kept_chain": ["ObjFiber+keep"],
 }
 
 
